@@ -159,6 +159,21 @@ def rerun(ids):
         print(sid, "caught" if meta["caught"] else "MISSED", meta["check"]["exit"], meta["check"]["violation_lines"][:1], meta["check"]["wall_s"], "s")
 
 
+def also(sid, props):
+    """run the checks of other properties against a kept change (a change can break several properties)"""
+    mf = V / "seeded" / sid / "meta.json"
+    meta = json.loads(mf.read_text())
+    with Worktree(sid.replace("-", "_")) as wt:
+        rc, out = sh(f"git -C {wt} apply {mf.parent / 'patch.diff'}")
+        if rc:
+            raise SystemExit(out)
+        for p in props:
+            r = run_check(p, wt)
+            meta.setdefault("other_checks", {})[p] = {k: r[k] for k in ("exit", "violation_lines", "wall_s")}
+            print(sid, p, r["exit"], r["violation_lines"][:1], r["wall_s"], "s")
+    mf.write_text(json.dumps(meta, indent=1))
+
+
 def table():
     print("| seeded change | property | needs | caught by `./check` (quick) | verdict line |")
     print("|---|---|---|---|---|")
@@ -168,7 +183,8 @@ def table():
         c = m.get("check") or {}
         v = (c.get("violation_lines") or [""])[0]
         v = re.sub(r"replay=\S+", "replay=…", v)
-        print(f"| {mf.parent.name} | {m['property']} | {need} | {'yes' if m.get('caught') else 'NO' if c else 'not run'} | {v} |")
+        oc = "; ".join(f"{p}: {'yes' if r['exit'] == 1 and r['violation_lines'] else 'no'}" for p, r in (m.get("other_checks") or {}).items())
+        print(f"| {mf.parent.name} | {m['property']} | {need} | {'yes' if m.get('caught') else 'NO' if c else 'not run'}{' (' + oc + ')' if oc else ''} | {v} |")
 
 
 if __name__ == "__main__":
@@ -179,6 +195,8 @@ if __name__ == "__main__":
         sys.exit(0 if verify(a[1], a[2], src, store_as) else 1)
     elif a and a[0] == "run":
         rerun(a[1:])
+    elif a and a[0] == "also":
+        also(a[1], a[2:])
     elif a and a[0] == "table":
         table()
     else:
